@@ -67,7 +67,94 @@ def store_rule(rule, world):
             rule.violate(key, bad, loc, edt.fmt(t))
         else:
             rule.inst(key, loc, "ok", {"success_paths_with_children": n_paths})
+    for c in world.crates:
+        if c.name == "pest_typed":
+            n += rep_store_rule(rule, c)
     return n
+
+
+def rep_store_rule(rule, crate):
+    """Repetition nodes: inside the loop, every round that matched (the loop-carried cursor is replaced by the cursor the unit
+    returned) pushes the node matched in that round — once — to the vector the function returns as `content`; a round that did not
+    match pushes nothing.  (The tree rule above does not look into loops; mutation scan: `vec.push(matched);` deleted.)"""
+    from .. import prims
+    from ..hir import walk, strip_generics, pat_binds
+
+    class P(prims.Paths):
+        def write_of(self, n):
+            if n["k"] == "assign" and n["l"]["k"] == "local":
+                r = prims._peel(n["r"])
+                return ("set", n["l"]["var"], r["var"] if r["k"] == "local" else None)
+            if n["k"] == "mcall" and n.get("callee") and strip_generics(n["callee"]["path"]) == "alloc::vec::Vec::push":
+                a = prims._peel(n["args"][0])
+                rv = prims._peel(n["recv"])
+                return ("push", rv["var"] if rv["k"] == "local" else None, a["var"] if a["k"] == "local" else None)
+            return None
+
+    n_fns = 0
+    for fid, bs in sorted(crate.bodies.items()):
+        if "::repetition::" not in fid or not (fid.endswith("::parse_with") or fid.endswith("::try_parse_partial_with")):
+            continue
+        b = bs[0]
+        loops = [n for n in walk(b["value"]) if n["k"] == "loop"]
+        if not loops:
+            continue
+        # the vector that becomes `content`
+        lits = [n for n in walk(b["value"]) if n["k"] == "struct"]
+        cvars = set()
+        for st in lits:
+            for f in st["fields"]:
+                if f["name"] == "content":
+                    e = prims._peel(f["e"])
+                    if e["k"] == "local":
+                        cvars.add(e["var"])
+        # pattern siblings: var bound next to the cursor in `Some((next, matched))`
+        sib = {}
+        for n in walk(b["value"]):
+            pats = []
+            if n["k"] == "match":
+                pats = [a["pat"] for a in n["arms"]]
+            elif n["k"] == "let_cond":
+                pats = [n["pat"]]
+            elif n["k"] == "block":
+                pats = [st["pat"] for st in n.get("stmts", []) if st["k"] == "let"]
+            for pt in pats:
+                bs_ = list(pat_binds(pt))
+                if len(bs_) == 2:
+                    sib[bs_[0]["var"]] = bs_[1]["var"]
+        key = fid.replace("pest_typed::predefined_node::repetition::", "")
+        loc = crate.loc(b["value"].get("sp"))
+        n_fns += 1
+        bad = None
+        lp = loops[-1] if len(loops) > 1 else loops[0]
+        try:
+            pp = P(crate, {"value": lp["body"], "params": []}, set())
+            paths_ = [(oc, w) for oc, v, w, f in pp.run(lp["body"], (), {})]
+        except RuntimeError as ex:
+            rule.violate(key, "cannot enumerate the loop's paths: %s" % ex, loc)
+            continue
+        rounds = 0
+        for oc, w in paths_:
+            if oc not in ("norm", "continue"):
+                continue
+            sets = [x for x in w if x[0] == "set" and x[2] in sib]
+            pushes = [x for x in w if x[0] == "push" and x[1] in cvars]
+            if sets:
+                rounds += 1
+                want = sib[sets[-1][2]]
+                if len(pushes) != 1 or pushes[0][2] != want:
+                    bad = "a round that matched does not push exactly the node it matched to the returned vector (%d pushes)" % len(pushes)
+            elif pushes:
+                bad = "a round that did not match pushes to the returned vector"
+        if not cvars:
+            bad = "the returned node's `content` is not a local vector"
+        if not rounds and not bad:
+            bad = "no round that carries a matched cursor on was found"
+        if bad:
+            rule.violate(key, bad, loc)
+        else:
+            rule.inst(key, loc, "ok", {"matched_rounds": rounds})
+    return n_fns
 
 
 def im_has_content(im):
